@@ -73,6 +73,7 @@ fn check(src: &str) -> Result<(), String> {
 }
 
 pub fn run(src: &str) -> Outcome {
+    crate::note_case("c16_table", json!({"grammar": src}));
     let expected = "all table views agree with the action/goto cells and the graph".to_string();
     match catch_unwind(AssertUnwindSafe(|| check(src))) {
         Err(_) => Outcome { fails: true, observed: "panic".into(), expected },
